@@ -19,7 +19,7 @@ ASSUMPTIONS = ['tilt-free wavefronts only (tilt is C04)', 'all-zero masks are re
 PLAN = {'quick': {'gen': 8}, 'thorough': {'gen': 16, 'tests': 1, 'docs': 1}}
 REQUIRED_BUCKETS = ['in:ee', 'in:oo', 'in:eo', 'in:oe', 'out:even', 'out:odd', 'dx:iso', 'dx:aniso', 'du:iso', 'du:aniso',
                     'prop<shape', 'prop=shape', 'mask', 'nomask', 'dir:pupil->image', 'dir:image->pupil', 'chain:2',
-                    'mask+prop', 'repeated']
+                    'mask+prop', 'repeated', 'segmented']
 REQUIRED_ANCHORS = ['probe:propagate_dft', 'anchor:_dft_alpha', 'anchor:_mask_shift', 'anchor:dft2',
                     'anchor:intersection_shift']
 REQUIRED_ORACLES = ['dft=fraunhofer', 'dft=fraunhofer:meta', 'dft=fraunhofer:outside=0']
@@ -80,14 +80,20 @@ def workload(ctx, lentil):
                 'mask': None if mask is None else probe.fp_array(mask)[:10], 'dir': direction, 'chain2': chain2,
                 'data': probe.fp_array(amp)[:10]}
         ctx.case(desc, bks, nontrivial=int(np.count_nonzero(amp)) > 1)
+        segkw = {}
+        if rng.random() < 0.3:
+            # a segmented description: the output wavefront then holds several fields whose sum is the answer
+            segs, _ = gen.partition(rng, sup, int(rng.integers(2, 5)))
+            segkw['mask'] = segs.astype(float)
+            ctx.bucket('segmented')
         if direction == 'pupil->image':
-            w = lentil.Wavefront(wl) * lentil.Pupil(amplitude=amp, opd=opd, pixelscale=dx, focal_length=z)
+            w = lentil.Wavefront(wl) * lentil.Pupil(amplitude=amp, opd=opd, pixelscale=dx, focal_length=z, **segkw)
             if chain2:
                 m2 = gen.support(rng, shape)
                 w = w * lentil.Pupil(amplitude=m2.astype(float), opd=gen.opd(rng, shape, wl), pixelscale=dx,
                                      focal_length=z)
         else:
-            w = lentil.Wavefront(wl, focal_length=z) * lentil.Image(amplitude=amp, opd=opd, pixelscale=dx)
+            w = lentil.Wavefront(wl, focal_length=z) * lentil.Image(amplitude=amp, opd=opd, pixelscale=dx, **segkw)
             if chain2:
                 w = w * lentil.Image(amplitude=gen.support(rng, shape).astype(float), pixelscale=dx)
         if not w.data:
